@@ -35,6 +35,75 @@ pub fn sched_point(name: &'static str) {
     }
 }
 
+/// Whether a scheduler callback is installed.
+pub fn sched_registered() -> bool {
+    SCHED_POINT.get().is_some()
+}
+
+/// Stand-ins for the `parking_lot` locks around proxy metadata. Every acquisition is a
+/// scheduling point, and a thread that finds the lock taken keeps reaching scheduling points
+/// instead of parking, so that a controlled scheduler which runs one thread at a time can
+/// interleave critical sections without knowing the lock. Without a registered callback they
+/// behave exactly like the locks they wrap.
+pub mod sync {
+    use super::{sched_point, sched_registered};
+
+    pub struct Mutex<T>(parking_lot::Mutex<T>);
+
+    impl<T> Mutex<T> {
+        pub fn new(v: T) -> Self {
+            Self(parking_lot::Mutex::new(v))
+        }
+
+        pub fn lock(&self) -> parking_lot::MutexGuard<'_, T> {
+            if !sched_registered() {
+                return self.0.lock();
+            }
+            sched_point("lock::acquire");
+            loop {
+                if let Some(guard) = self.0.try_lock() {
+                    return guard;
+                }
+                sched_point("lock::contended");
+            }
+        }
+    }
+
+    pub struct RwLock<T>(parking_lot::RwLock<T>);
+
+    impl<T> RwLock<T> {
+        pub fn new(v: T) -> Self {
+            Self(parking_lot::RwLock::new(v))
+        }
+
+        pub fn read(&self) -> parking_lot::RwLockReadGuard<'_, T> {
+            if !sched_registered() {
+                return self.0.read();
+            }
+            sched_point("lock::acquire");
+            loop {
+                if let Some(guard) = self.0.try_read() {
+                    return guard;
+                }
+                sched_point("lock::contended");
+            }
+        }
+
+        pub fn write(&self) -> parking_lot::RwLockWriteGuard<'_, T> {
+            if !sched_registered() {
+                return self.0.write();
+            }
+            sched_point("lock::acquire");
+            loop {
+                if let Some(guard) = self.0.try_write() {
+                    return guard;
+                }
+                sched_point("lock::contended");
+            }
+        }
+    }
+}
+
 /// The wall clock as seen by the broker.
 pub fn utc_now(real: DateTime<Utc>) -> DateTime<Utc> {
     match UTC_NOW.get() {
